@@ -311,8 +311,100 @@ def yaw_traces(ctx):
         ctx.violation("yaw-error:" + clause, "analyzer yaw error for pair %s rejected by Trace_Heading: %s" % (info[t_]["pairs"], clause), info[t_])
 
 
+def replay_area(arg):
+    """Areas.tla bound to generate_area_points / get_area_idx / extract_area_results"""
+    import shutil
+    import tempfile
+
+    import numpy as np
+
+    from perception_eval.evaluation.result.object_result import DynamicObjectWithPerceptionResult
+    from perception_eval.tool.utils import extract_area_results, generate_area_points, get_area_idx
+
+    from ..build import EgoPose, frame_gt, obj3d, vid
+
+    st = arg
+    n, (a, b) = st["n"], st["ab"]
+    mism = []
+    rep = {"kind": st["kind"], "divisions": n, "max_x": 3 * a, "max_y": 3 * b}
+    try:
+        ur, bl = generate_area_points(n, float(3 * a), float(3 * b))
+        if st["kind"] == "point":
+            p = st["p"]
+            rep.update(point=list(p), spec_area=st["out"]["area"])
+            want = [(r["xhi"], r["ylo"], r["xlo"], r["yhi"]) for r in st["out"]["rects"]]
+            got = [(float(u[0]), float(u[1]), float(l[0]), float(l[1])) for u, l in zip(ur, bl)]
+            if len(got) != len(want) or any(abs(x - y) > 1e-9 for g_, w_ in zip(got, want) for x, y in zip(g_, w_)):
+                mism.append(("area-rectangles", "generate_area_points(%d) = %s, specification %s" % (n, got, want), rep))
+            exp = st["out"]["area"] - 1 if st["out"]["area"] > 0 else None
+            border = p[0] in (-3 * a, -a, a, 3 * a) or p[1] in (-3 * b, -b, b, 3 * b)
+            ego = EgoPose(70.0, -20.0, 0.0, 2.2)
+            for how in ("base_link", "map", "result"):
+                if how == "map" and border:
+                    continue
+                e_ = ego if how == "map" else EgoPose()
+                o = obj3d((p[0], p[1], 0.0), frame="map" if how == "map" else "base_link", ego=e_)
+                obj = DynamicObjectWithPerceptionResult(o, None) if how == "result" else o
+                got_idx = get_area_idx(obj, ur, bl, e_.transforms())
+                if got_idx != exp:
+                    mism.append(("area-index", "get_area_idx of %s at %s (%s) = %r, specification %r" % (type(obj).__name__, list(p), how, got_idx, exp), rep))
+        else:
+            from perception_eval.config import PerceptionEvaluationConfig
+            from perception_eval.evaluation.result.perception_frame_config import CriticalObjectFilterConfig, PerceptionPassFailConfig
+            from perception_eval.manager import PerceptionEvaluationManager
+
+            pts, sel = [tuple(q) for q in st["pts"]], sorted(st["sel"])
+            rep.update(points=[list(q) for q in pts], selection=[k - 1 for k in sel], spec_kept=[list(q) for q in st["out"]["kept"]])
+            d = {"evaluation_task": "detection", "target_labels": ["car"], "label_prefix": "autoware", "merge_similar_labels": False, "max_x_position": 100.0,
+                 "max_y_position": 100.0, "min_point_numbers": [0], "center_distance_thresholds": [[1.0]], "plane_distance_thresholds": None, "iou_2d_thresholds": None, "iou_3d_thresholds": None}
+            tmp = tempfile.mkdtemp(prefix="verif_area_")
+            try:
+                ec = PerceptionEvaluationConfig([], "base_link", tmp, d)
+                mgr = PerceptionEvaluationManager(ec)
+            finally:
+                shutil.rmtree(tmp, ignore_errors=True)
+            E = [obj3d((q[0], q[1], 0.0), label="car", score=0.9 - 0.01 * i, vid=i + 1, uuid="e%d" % i) for i, q in enumerate(pts)]
+            G = [obj3d((q[0], q[1], 0.0), label="car", vid=i + 1, uuid="g%d" % i) for i, q in enumerate(pts)]
+            crit = CriticalObjectFilterConfig(ec, ["car"], max_x_position_list=[100.0], max_y_position_list=[100.0])
+            mgr.add_frame_result(1000, frame_gt(G), E, crit, PerceptionPassFailConfig(ec, ["car"], [1.0]))
+            before = (len(mgr.frame_results[0].object_results), len(mgr.frame_results[0].frame_ground_truth.objects))
+            outf = extract_area_results(mgr.frame_results, [k - 1 for k in sel], ur, bl)
+            kept_e = sorted(vid(r.estimated_object) for r in outf[0].object_results)
+            kept_g = sorted(vid(g) for g in outf[0].frame_ground_truth.objects)
+            want_ids = sorted(i + 1 for i, q in enumerate(pts) if list(q) in [list(x) for x in st["out"]["kept"]])
+            if kept_e != want_ids or kept_g != want_ids:
+                mism.append(("area-selection", "extract_area_results keeps estimates %s / ground truths %s, specification %s" % (kept_e, kept_g, want_ids), rep))
+            if (len(mgr.frame_results[0].object_results), len(mgr.frame_results[0].frame_ground_truth.objects)) != before:
+                mism.append(("area-selection-modified-input", "extract_area_results changed the frame results it was given", rep))
+    except Exception as ex:
+        mism.append(("raised", "area replay raised %r" % (ex,), rep))
+    return 1, mism
+
+
+def areas_run(ctx):
+    consts = dict(Span="7", ABs="{<<1,1>>, <<2,1>>, <<1,2>>}", Sample="25" if ctx.quick else "200")
+    res = T.run_model("MC_Areas", "MCAR_" + ctx.pid, consts, invariants=["LawPartition", "LawRefines"], model_values=(),
+                      tlc_kwargs=dict(dump=True, allow_violation=False, seed=ctx.seed, timeout=1200))
+    ctx.add_tlc(res, "MC_Areas (1/3/9 divisions, thirds a,b <= 2, every lattice point of a 15x15 block)", must_take=["Next"])
+    states, _ = load_dump(res.dump_path, must_contain='phase = "done"')
+    os.remove(res.dump_path)
+    items = [dict(kind=st["kind"], n=st["n"], ab=tuple(st["ab"]), p=tuple(st["p"]), pts=plain(st["pts"]), sel=sorted(st["sel"]), out=plain(st["out"])) for st in states]
+    if ctx.quick:
+        items = [it for i, it in enumerate(items) if it["kind"] == "select" or i % 2 == 0]
+    outs = pmap(replay_area, items)
+    for it, (n_, mism) in zip(items, outs):
+        ctx.traces += n_
+        ctx.evaluations += n_
+        if it["kind"] == "select" or it["out"].get("area", 0) > 0:
+            ctx.nontrivial_count += 1
+        for clause, msg, rep in mism:
+            ctx.violation(clause, msg, rep)
+    ctx.extra["area_partition_cases"] = len(items)
+
+
 def run(ctx: Ctx):
     yaw_traces(ctx)
+    areas_run(ctx)
     maxcalls = 2
     for name, w in history.worlds(ctx.tier).items():
         consts = dict(w, MaxN="3", LcmN="6", MaxCalls=str(maxcalls), AsBuiltAliasedGT="FALSE", PoolN="9", PoolL="2520")
